@@ -1,7 +1,7 @@
 # C19 - soft clipping and decoder gain (DESIGN.md section 2, C19)
 ASSUMPTIONS = ['IEEE-754 binary32 semantics of CBMC float encoding (round to nearest even), no -ffast-math',
                'excursion harnesses: the excursion peak is a concrete case selector (float division by a symbolic value gives no solver verdict); every other sample is symbolic']
-OUTSIDE = ('excursions whose samples are not saturated at +-2 (harness mode 2 - isolated peak of a concrete value at a concrete position, every other sample symbolic - gave no verdict in 900 s per case and is not registered); frames longer than 3 samples per channel, more than 2 channels; '
+OUTSIDE = ('the decoder gain (application extent and the 10^(g/5120) law): the gain harness C01_frame.c -DGAIN gave no verdict; excursions whose samples are not saturated at +-2 (harness mode 2 - isolated peak of a concrete value at a concrete position, every other sample symbolic - gave no verdict in 900 s per case and is not registered); frames longer than 3 samples per channel, more than 2 channels; '
            'the 10^(g/5120) decoder gain law (libm exp); gain range/readback is decided under C11')
 PEAKS = ['1.0000001f', '1.25f', '1.5f', '1.9999999f', '2.0f']
 
@@ -20,19 +20,10 @@ def obligations():
         L.append(Ob('H3.saturated_peaks.n%dc%d' % (n, c), 'C19_softclip.c', ['src/opus.c'], ['-DMODE=3', '-DNMAX=%d' % n, '-DCMAX=%d' % c], unwind=1, tier=tier,
                     unwindset=us(n, c), functions=['opus_pcm_soft_clip'], budget=900,
                     bounds='N=%d, C=%d, every sample any non-NaN float with |x|<=1 or |x|>=2 (incl. infinities): all peaks saturate to +-2; memory in {0,+-0.25}' % (n, c)))
-    for (n, c, tier) in ((1, 1, 'quick'), (2, 2, 'quick'), (3, 1, 'quick'), (3, 2, 'thorough'), (4, 1, 'thorough')):
+    # (2,2) and (3,1) gave no verdict in 900 s on a loaded machine: thorough tier only, with a larger budget
+    for (n, c, tier) in ((1, 1, 'quick'), (2, 1, 'quick'), (2, 2, 'thorough'), (3, 1, 'thorough')):
         L.append(Ob('H4.memory_cleared_in_range.n%dc%d' % (n, c), 'C19_softclip.c', ['src/opus.c'], ['-DMODE=4', '-DNMAX=%d' % n, '-DCMAX=%d' % c], unwind=1, tier=tier,
-                    unwindset=us(n, c), functions=['opus_pcm_soft_clip'], budget=900,
+                    unwindset=us(n, c), functions=['opus_pcm_soft_clip'], budget=(600 if tier == 'quick' else 3000),
                     bounds='N=%d, C=%d, every sample any float in [-1,1], memory any coefficient |a|<=0.2500001 a previous call can leave (continuation of the previous curve; division-free path)' % (n, c)))
-    # H5: decoder gain applied exactly once to the whole frame (decoder frame glue of C01-H3 with synth stubs)
-    for fsi, fs, tier in ((0, 8000, 'quick'), (2, 16000, 'thorough')):
-        F20 = fs // 50
-        L.append(Ob('H5.decoder_gain_applied_once.fs%d' % fs, 'C01_frame.c', ['celt/entdec.c', 'celt/entcode.c'], ['-DFSI=%d' % fsi, '-DPL=6', '-DGAIN'], unwind=1,
-                    replace=['smooth_fade_REAL:stub_fade'], memwords=F20 // 2 + 2,
-                    unwindset=['harness:7', 'opus_decode_frame:%d' % (F20 + 2), 'opus_decode_frame@decoded_samples < frame_size:5', 'opus_decode_frame@audiosize > 0:8',
-                               'opus_decode_frame@c<st->channels:3', 'opus_decode_frame@i<F2_5:%d' % (F20 // 8 + 1), 'rec:opus_decode_frame:3', 'ec_dec_init:5', 'ec_dec_normalize:5', 'ec_dec_uint:3', 'ec_dec_bits:5'],
-                    functions=['opus_decode_frame'], budget=1500, tier=tier, replay=False, mem_gb=16,
-                    stubs=['silk_Decode, celt_decode_with_ec(_dred): write 0.5 at both ends of the region they produce', 'smooth_fade: output starts at its first input and ends at its second',
-                           'exp(): returns an arbitrary factor G in [2^-7, 2^7] (the 10^(g/5120) law itself is libm and not claimed)', 'celt_decoder_ctl, silk_ResetDecoder: as in C01-H3'],
-                    bounds='Fs=%d; any mode / previous mode / redundancy history, 1-2 channels, frames and requests up to 10 ms, any packet of 0..6 bytes or NULL, any non-zero decode_gain' % fs))
+    # H5 (decoder gain applied exactly once, C01_frame.c -DGAIN) gave no verdict in 1500 s and is not registered (DESIGN 7.2a)
     return L
